@@ -65,11 +65,11 @@ func NewRun(prop, tier string, seed int64, out, only string) (*Run, error) {
 	}
 	return &Run{
 		Prop: prop, Tier: tier, Seed: seed, OutDir: out, Only: only,
-		rng:      rand.New(rand.NewSource(seed)),
-		casesF:   f,
-		cases:    bufio.NewWriterSize(f, 1<<20),
-		distinct: map[string]struct{}{},
-		dist:     map[string]int{},
+		rng:       rand.New(rand.NewSource(seed)),
+		casesF:    f,
+		cases:     bufio.NewWriterSize(f, 1<<20),
+		distinct:  map[string]struct{}{},
+		dist:      map[string]int{},
 		progressF: pf,
 	}, nil
 }
@@ -180,6 +180,9 @@ func (r *Run) Trace() {
 func (r *Run) KnownFinding(id, what string) {
 	r.mu.Lock()
 	defer r.mu.Unlock()
+	if r.quiet {
+		return
+	}
 	r.known = append(r.known, id+" "+what)
 }
 
@@ -340,7 +343,14 @@ func goatGoroutines() (int, []string) {
 
 // settleGoroutines waits until the number of goat goroutines is at most want
 // (polling; bounded by hangTimeout) and returns the final census.
+// settleFast: set by the C15 runner, where workloads of several properties share one process and the
+// census of one is not meaningful for the next.
+var settleFast bool
+
 func settleGoroutines(want int) (int, []string) {
+	if settleFast {
+		return goatGoroutines()
+	}
 	deadline := time.Now().Add(hangTimeout)
 	for {
 		n, w := goatGoroutines()
